@@ -61,6 +61,10 @@ def plan(tier, seed):
                 for layout in ("full", "compact"):
                     g.append(dict(pre, kind="ph2ph", S2=S2, multiple=multiple, nac=nac, layout=layout))
                     targets += 1
+                    if nac is None and layout == "full" and M is not None and M[0][0] == 2:
+                        # history: the masses were changed through the setter before the transfer
+                        g.append(dict(pre, kind="ph2ph", S2=S2, multiple=multiple, nac=nac, layout=layout, remass=True))
+                        targets += 1
         if g:
             groups.append(g)
     meta = {"alphabet": {"matrices": len(mats), "roundtrip_prefixes": npre, "roundtrip_options": len(opts), "ph2ph_cases": targets},
@@ -159,6 +163,24 @@ def run_roundtrip(case, seed, st):
     if e1 > TOL:
         return dict(ok=False, sig="C06/roundtrip/lossy/" + tag, resid=e1, nontrivial=nontriv, transitions=2,
                     msg="%s %s S=%s pm=%s %s: fc -> D(q_c) -> fc differs by %.3g (rel)" % (case["xtal"], case["variant"], case["S"], case["pm"], tag, e1))
+    # the caller may supply the commensurate points itself (constructor argument): any order, any representative modulo G
+    if N > 1:
+        g = np.random.default_rng(3 + seed)
+        variants = {"reversed": comm[::-1].copy(), "rotated": np.roll(comm, 1, axis=0), "shuffled": comm[g.permutation(N)],
+                    "other-representatives": comm + g.integers(-2, 3, size=comm.shape)}
+        for vn, pts in variants.items():
+            ph.run_qpoints(pts, with_dynamical_matrices=True)
+            try:
+                d3 = DynmatToForceConstants(ph.primitive, ph.supercell, dynamical_matrices=ph.get_qpoints_dict()["dynamical_matrices"], commensurate_points=pts,
+                                            is_full_fc=(case["layout"] == "full"), use_openmp=(case["path"] == "C/omp"))
+                d3.run(lang=lang)
+                fc3 = np.array(d3.force_constants)
+            except Exception as e:
+                return dict(ok=False, sig="C06/roundtrip/raised/" + tag, msg="commensurate points %s: %s: %s" % (vn, type(e).__name__, str(e)[:200]), nontrivial=nontriv)
+            e3 = float(np.abs(fc3 - want).max() / scale)
+            if e3 > TOL:
+                return dict(ok=False, sig="C06/roundtrip/point-order/" + tag, resid=e3, nontrivial=nontriv, transitions=4,
+                            msg="%s S=%s pm=%s %s: with the commensurate points supplied %s the round trip differs by %.3g (rel)" % (case["xtal"], case["S"], case["pm"], tag, vn, e3))
     e2 = float(np.abs(fc2 - fc1).max() / scale)
     if e2 > TOL:
         return dict(ok=False, sig="C06/roundtrip/second-run-differs/" + tag, resid=e2, nontrivial=nontriv, transitions=3,
@@ -167,6 +189,15 @@ def run_roundtrip(case, seed, st):
 
 
 def run_ph2ph(case, seed, st):
+    try:
+        return _run_ph2ph(case, seed, st)
+    finally:
+        ph = _setup(case, seed, st)
+        if case.get("remass") and not isinstance(ph, Exception) and "m_orig" in st:
+            ph.masses = st["m_orig"]
+
+
+def _run_ph2ph(case, seed, st):
     from vtk import scenarios as SC
 
     ph = _setup(case, seed, st)
@@ -179,6 +210,10 @@ def run_ph2ph(case, seed, st):
     p2s = np.asarray(ph.primitive.p2s_map)
     ph.force_constants = np.array(ref if case["layout"] == "full" else ref[p2s], dtype="double", order="C")
     ph.nac_params = SC.nac_params(case["xtal"], case["nac"]) if case["nac"] else None
+    m_orig = st.setdefault("m_orig", np.array(ph.masses, float))
+    if case.get("remass"):
+        tag += "/masses-set-before"
+        ph.masses = m_orig * np.linspace(1.3, 2.1, len(m_orig))
     try:
         ph2 = phx.quiet(ph.ph2ph, case["S2"], with_nac=bool(case["nac"]))
     except Exception as e:
